@@ -392,7 +392,15 @@ impl<'a> GeneratorState<'a> {
     fn generate_addr(&mut self, expr: &Expr, pos: usize) -> Result<ExprType, Error> {
         match expr {
             Expr::Identifier(var, sub) => {
-                let v = self.compiler_state.get_variable(var);
+                // X, Y and function names are not variables
+                let v = match self.compiler_state.variables.get(var) {
+                    Some(v) => v,
+                    None => {
+                        return Err(self
+                            .compiler_state
+                            .syntax_error("& only works on char (8 bits) variables", pos))
+                    }
+                };
                 if v.var_type == VariableType::Char {
                     let sub_output = self.generate_expr(sub, pos, false, false)?;
                     match sub_output {
